@@ -318,6 +318,48 @@ def dispatch_rule(ctx, facts, cfg):
         ctx.violation(rid, '<floor>', 'slots', 'only %d function slots found in fn_table(), expected 29' % n, kind='below-floor')
 
 
+def _array_len(e):
+    """N for an expression that is (an unsizing of) a reference to a [u8; N]"""
+    while e[0] in ('cast',):
+        e = e[2]
+    if e[0] == 'ref':
+        ty = e[1].get('ty') or {}
+        m = re.match(r'(\d+)', str(ty.get('n', ''))) or re.search(r';\s*(\d+)\]', str(ty.get('s', '')))
+        if m:
+            return int(m.group(1))
+    return None
+
+
+def _const_at(f, defs, bi, op):
+    """the constant an operand is known to hold at the end of block bi: a literal, or a load of a place whose last store on the
+    straight-line path leading here wrote a literal; None when the value comes from outside (the caller's cell as it was)"""
+    e = F.expr(f, defs, op)
+    while e[0] == 'cast':
+        e = e[2]
+    if e[0] == 'const' and isinstance(e[1], int):
+        return e[1]
+    if e[0] != 'load':
+        return None
+    place = json.dumps({k: e[1][k] for k in ('local', 'proj')}, sort_keys=True)
+    preds = {}
+    for i, b in F.blocks(f):
+        for m in F.succ(b):
+            preds.setdefault(m, set()).add(i)
+    cur = bi
+    for _ in range(16):
+        for s in reversed(f['blocks'][cur]['stmts']):
+            if s['k'] == 'assign' and json.dumps({k: s['place'][k] for k in ('local', 'proj')}, sort_keys=True) == place:
+                v = F.expr_rv(f, defs, s['rv'])
+                return v[1] if v[0] == 'const' and isinstance(v[1], int) else None
+        ps = preds.get(cur, set())
+        if len(ps) != 1:
+            return None
+        cur = next(iter(ps))
+        if f['blocks'][cur]['term']['k'] == 'call':
+            return None     # a call in between may write through the pointer
+    return None
+
+
 def buffers_rule(ctx, facts, cfg):
     rid = 'C15.c'
     n_raw = 0
@@ -344,16 +386,66 @@ def buffers_rule(ctx, facts, cfg):
                 # capacity test: Ge(load *addr_len, const N) dominating, and the length passed is that N
                 ln = F.expr(f, defs, t['args'][1])
                 okc = False
+                cap = None
+
+                def _size(x):
+                    """constant size an operand of the capacity test stands for: a literal, or the length of a fixed-size array"""
+                    while x[0] == 'cast':
+                        x = x[2]
+                    if x[0] == 'const' and isinstance(x[1], int):
+                        return x[1]
+                    if x[0] == 'call' and str(x[1]).endswith('::len') and x[2]:
+                        return _array_len(x[2][0])
+                    return None
+
+                def _caller_cell(x):
+                    while x[0] == 'cast':
+                        x = x[2]
+                    return x[0] == 'load' and any(pr['k'] == 'deref' for pr in x[1]['proj'])
                 for te, fe, e in guards:
-                    if e[0] == 'binop' and e[1] in ('Ge', 'Gt') and e[3][0] == 'const' and te is not None and (te in dom.get(bi, ()) or te == bi):
-                        need = e[3][1] + (1 if e[1] == 'Gt' else 0)
-                        # the length handed to from_raw_parts_mut: a load of the same cell that was just set to `need`
+                    if e[0] != 'binop' or e[1] not in ('Ge', 'Gt', 'Le', 'Lt'):
+                        continue
+                    # normalise to  capacity OP size  with the edge on which capacity >= need
+                    if _caller_cell(e[2]) and _size(e[3]) is not None:
+                        op, size = e[1], _size(e[3])
+                    elif _caller_cell(e[3]) and _size(e[2]) is not None:
+                        op, size = {'Ge': 'Le', 'Gt': 'Lt', 'Le': 'Ge', 'Lt': 'Gt'}[e[1]], _size(e[2])
+                    else:
+                        continue
+                    if op in ('Ge', 'Gt'):
+                        edge, need = te, size + (1 if op == 'Gt' else 0)
+                    else:                       # capacity < size / capacity <= size: the other edge is the safe one
+                        edge, need = fe, size + (1 if op == 'Le' else 0)
+                    if edge is not None and (edge in dom.get(bi, ()) or edge == bi):
                         okc = True
-                        cap = need
+                        cap = need if cap is None else max(cap, need)
                 # bytes written: the copy_from_slice source length (octets(): 4 or 16)
                 ctx.instance(rid, '%s: from_raw_parts_mut on a caller pointer is dominated by a capacity test' % key, ok=okc, site=t['at'])
                 if not okc:
                     ctx.violation(rid, key, 'unchecked-from_raw_parts_mut', 'a mutable slice is built over a caller pointer without a dominating test of the caller-supplied capacity', site=t['at'], config=cfg)
+                # ... and spans exactly the bytes written: the length handed over is a constant on this path (a literal, or the cell that
+                # was just overwritten with one) equal to the size of the array copied in; the caller's capacity itself is only a lower
+                # bound, and copy_from_slice panics (aborting the host across the C boundary) when the two lengths differ
+                L = _const_at(f, defs, bi, t['args'][1])
+                dest_local = t['dest']['local'] if not t['dest']['proj'] else None
+                N = None
+                cur = t.get('target')
+                for _ in range(8):
+                    if cur is None:
+                        break
+                    ct = f['blocks'][cur]['term']
+                    if ct['k'] == 'call' and (F.call_path(ct) or '').endswith('copy_from_slice'):
+                        rs = F.roots(f, defs, ct['args'][0])
+                        if any(r[0] == 'call' and str(r[1]).endswith('from_raw_parts_mut') for r in rs) or dest_local is None:
+                            N = _array_len(F.expr(f, defs, ct['args'][1]))
+                        break
+                    cur = ct.get('target') if ct['k'] in ('call', 'goto', 'drop', 'assert') else None
+                oke = L is not None and N is not None and L == N and (not okc or cap is None or N <= cap)
+                ctx.instance(rid, '%s: the slice over the caller buffer is exactly the %s bytes copied into it (length %s)' % (key, N, L), ok=oke, site=t['at'])
+                if not oke:
+                    ctx.violation(rid, key, 'slice-span-not-exact',
+                                  'the slice built over the caller\'s buffer has length %s where %s bytes are copied into it: with the caller\'s capacity as the length, any buffer larger than the address makes copy_from_slice panic inside an extern "C" function'
+                                  % ('<the caller-supplied capacity>' if L is None else L, '<unknown>' if N is None else N), site=t['at'], config=cfg)
         # NUL termination of name copy-outs: an element store of const 0 into an array parameter at index == a length
         if key in ('c_abi::name', 'c_abi::question'):
             stores = []
